@@ -27,11 +27,13 @@ pub struct OpSpec {
     /// the other namespace declares global elements with the SAME local names as the ones this
     /// operation binds (they are never referenced)
     pub shadow_elements: bool,
+    /// header part names that sort BEFORE the body part name (`audit0` < `parameters`)
+    pub early_header_names: bool,
 }
 
 impl OpSpec {
     pub fn simple(name: &str) -> OpSpec {
-        OpSpec { name: name.into(), output: true, in_headers: 0, out_headers: 0, explicit_parts: false, action: true, part_named_as_element: false, imported_ns: false, headers_without_parts: false, mixed_header_ns: false, overlapping_part_names: false, shadow_elements: false }
+        OpSpec { name: name.into(), output: true, in_headers: 0, out_headers: 0, explicit_parts: false, action: true, part_named_as_element: false, imported_ns: false, headers_without_parts: false, mixed_header_ns: false, overlapping_part_names: false, shadow_elements: false, early_header_names: false }
     }
     pub fn label(&self) -> String {
         format!(
@@ -94,7 +96,7 @@ fn add_op(s: &mut SchemaSet, o: &OpSpec) {
         } else {
             new_elems.push(anon_element(&hn, vec![el("Token", TypeRef::b("string"))]));
         }
-        let pn = if o.part_named_as_element { hn.clone() } else if o.overlapping_part_names { format!("payloadHeader{i}") } else { format!("hdr{i}") };
+        let pn = if o.part_named_as_element { hn.clone() } else if o.overlapping_part_names { format!("payloadHeader{i}") } else if o.early_header_names { format!("audit{i}") } else { format!("hdr{i}") };
         in_parts.push(Part { name: pn.clone(), element: QName::new(&hns, &hn) });
         in_h.push((format!("{name}In"), pn));
     }
@@ -108,7 +110,7 @@ fn add_op(s: &mut SchemaSet, o: &OpSpec) {
         for i in 0..o.out_headers {
             let hn = format!("{name}RespHdr{i}");
             new_elems.push(anon_element(&hn, vec![el("Info", TypeRef::b("string"))]));
-            let pn = if o.part_named_as_element { hn.clone() } else if o.overlapping_part_names { format!("payloadHeader{i}") } else { format!("rhdr{i}") };
+            let pn = if o.part_named_as_element { hn.clone() } else if o.overlapping_part_names { format!("payloadHeader{i}") } else if o.early_header_names { format!("audit{i}") } else { format!("rhdr{i}") };
             out_parts_v.push(Part { name: pn.clone(), element: QName::new(&ens, &hn) });
             out_h.push((format!("{name}Out"), pn));
         }
@@ -191,6 +193,12 @@ pub fn wsdl_states(depth2: bool) -> Vec<State> {
         o.in_headers = 1;
         o.shadow_elements = true;
     })));
+    prods.push(("header-part-names-sort-before-the-body-part-parts-absent".into(), Box::new(|o: &mut OpSpec| {
+        o.in_headers = 1;
+        o.out_headers = 2;
+        o.headers_without_parts = true;
+        o.early_header_names = true;
+    })));
     prods.push(("output-headers-bound-body-parts-absent".into(), Box::new(|o: &mut OpSpec| {
         o.out_headers = 2;
         o.headers_without_parts = true;
@@ -233,6 +241,20 @@ pub fn wsdl_states(depth2: bool) -> Vec<State> {
         specs.push((l.into(), vec![base.clone()], svc.into(), a.into()));
     }
     let mut out: Vec<State> = specs.iter().map(|(l, ops, s, a)| State { label: format!("wsdl {l}"), depth: if l == "seed" { 0 } else { 1 }, set: wsdl_with(ops, s, a) }).collect();
+    // soapAction forms: another scheme than the address, an opaque URN
+    for (l, a) in [("https", "https://secure.zv.example/act/GetThing"), ("urn", "urn:zv:act:GetThing")] {
+        let mut set = wsdl_with(&[OpSpec { in_headers: 1, ..base.clone() }, OpSpec { output: false, in_headers: 1, ..OpSpec::simple("DropThing") }], svc, addr);
+        for (i, b) in set.wsdl.as_mut().unwrap().b_ops.iter_mut().enumerate() {
+            b.action = Some(format!("{a}{i}"));
+        }
+        out.push(State { label: format!("wsdl soap-action-form={l}"), depth: 1, set });
+    }
+    // the WSDL elements in the default namespace, the inline schema under a default namespace of its own
+    {
+        let mut set = wsdl_with(&[OpSpec { in_headers: 1, out_headers: 1, ..base.clone() }, OpSpec { output: false, ..OpSpec::simple("DropThing") }], svc, addr);
+        set.wsdl.as_mut().unwrap().default_ns_style = true;
+        out.push(State { label: "wsdl default-namespace-spelling".into(), depth: 1, set });
+    }
     if depth2 {
         for (i, (la, fa)) in prods.iter().enumerate() {
             for (lb, fb) in prods.iter().skip(i + 1) {
